@@ -7,11 +7,18 @@ LEVEL_TEXT = (
     "Lean 4: an independent big-step semantics [[.]] written on the generator's own syntax tree (unbounded integers, "
     "multi-asset values as finite maps with pointwise arithmetic, records as constructor applications, inputs as the "
     "UTxOs assigned to them), a model of analysis+lowering (which symbol a name resolves to, what each construct "
-    "becomes in the IR, per syntactic position), and the reducer model. Theorems: for every expression of the integer "
+    "becomes in the IR, per syntactic position), and the reducer model. Theorems: (1) for every expression of the integer "
     "fragment (literals, parameters, +, -, unary !, any nesting), every argument vector, position and sufficient "
     "fuel, the semantics yields den(e) and lower -> apply_args -> reduce yields the literal den(e), provided the "
     "values stay inside the 128-bit range the IR computes in; a - b - c denotes (a - b) - c and that differs from "
-    "a - (b - c) whenever c != 0. Per generated program (two layouts of the same tree) the real parse, analyze, lower, "
+    "a - (b - c) whenever c != 0; (2) the reducer's multi-asset arithmetic is pointwise integer arithmetic: whenever "
+    "its +, - or negation succeeds on constant asset lists, the list it writes denotes, class by class, the sum / "
+    "difference / negation of what the operands denote, the writer/reader pair of canonical values is lossless, an "
+    "overflow of the 128-bit range is an error and never a wrapped value, and subtraction chains associate to the left "
+    "class by class (C01_assets_add/_sub/_neg/_sub_chain, reread_canonical); (3) the lovelace fragment: every "
+    "combination of Ada(i), + and - over the integer fragment lowers and, once the arguments are applied, reduces to a "
+    "constant asset list denoting exactly the lovelace amount integer arithmetic gives and nothing else "
+    "(C01_lovelace_fragment). Per generated program (two layouts of the same tree) the real parse, analyze, lower, "
     "resolve_tx (apply, reduce, input selection, compile) is run; the lowered IR must equal the model's, and the "
     "transaction bytes, decoded by the Lean Conway reader, must hold exactly the inputs, outputs (address, lovelace, "
     "native assets, inline datum, in source order), mint, validity interval, signers, reference inputs, metadata "
@@ -19,16 +26,20 @@ LEVEL_TEXT = (
     "on; both layouts must give the same IR and the same bytes."
 )
 LEVEL_NOTE = (
-    "Partial: the end-to-end equation is proved for the integer fragment up to reduction only; multi-asset "
-    "arithmetic, records with spread, property access, inputs, selection and the Cardano compiler are compared "
+    "Partial: the end-to-end equation (lower, apply, reduce = denotation) is proved for the integer and the lovelace "
+    "fragments; multi-asset arithmetic is proved at the reducer level for every asset class (native-asset constructors "
+    "in the source language, inputs as asset values, are per case); records with spread, property access, inputs, selection and the Cardano compiler are compared "
     "with [[.]] per case (compile exactness on constant IR is C02's theorems). min_utxo, slot/time built-ins, "
     "collateral, policies with scripts and chain-specific directives are not generated yet; names are unique, so "
     "shadowing between scopes is not exercised."
 )
 PROP = "C01"
-TARGETS = ["Tx3Proofs.C01"]
+TARGETS = ["Tx3Proofs.C01", "Tx3Proofs.C01Assets", "Tx3Proofs.C01Lovelace"]
 THEOREMS = ["Tx3.Lang.eval_int", "Tx3.Lang.lower_int", "Tx3.Lang.C01_int_fragment", "Tx3.Lang.C01_sub_chain",
-            "Tx3.Lang.C01_sub_chain_distinct"]
+            "Tx3.Lang.C01_sub_chain_distinct",
+            "Tx3.assetsOfChildren_amt", "Tx3.reread_canonical", "Tx3.C01_assets_add", "Tx3.C01_assets_neg",
+            "Tx3.C01_assets_sub", "Tx3.C01_assets_sub_chain", "Tx3.arithAdd_ok", "Tx3.arithSub_ok",
+            "Tx3.Lang.lower_lovelace", "Tx3.Lang.C01_lovelace_fragment"]
 RULE = (
     "cases = generated programs over the core fragment: env (Int, Bytes), 2-3 parties, a policy, an asset, a record "
     "and a variant type; one transaction with 1-3 positive Int parameters, optionally an unconstrained Int, a Bytes "
